@@ -32,14 +32,19 @@ def gen_case(rng):
     nested = {"n": rng.choice([3, "deep", 2.25])}
     doc["m"] = nested
     scal["m.n"] = nested["n"]
-    if rng.random() < 0.2:
-        # a key that CONTAINS dots is one key: `{svc.port}` walks svc -> port and never finds it
-        doc[rng.choice(["svc.port", "m.zz", "m.n.x", "a.b"])] = rng.choice([8080, "dotted"])
-        if rng.random() < 0.5:
-            doc["svc"] = {"host": "h"}
+    dotted = None
+    if rng.random() < 0.12:
+        # a key that CONTAINS dots is one key: `{svc.port}` walks svc -> port, finds no `svc`, and is an error
+        dotted = rng.choice(["svc.port", "x.y.z", "q.r", "svc.port.name"])
+        doc[dotted] = rng.choice([8080, "dotted"])
+        if rng.random() < 0.3:
+            doc[dotted.split(".")[0] + "x"] = {dotted.split(".", 1)[1]: "sibling"}
     r = rng.random()
     if r < 0.6:
         segs, expect, ok = [], "", True
+        if dotted:
+            segs.append("{" + dotted + "}")
+            ok = False
         for _ in range(rng.randint(0, 4)):
             if rng.random() < 0.5:
                 l = rng.choice(LITS)
